@@ -318,10 +318,17 @@ fn execute(plan: &Value, w: &World, cfg: &Cfg, slot: usize) -> Outcome {
         Some("old-schema") => Some(b"{\n  \"data\": {\n    \"__schema\": {\n      \"queryType\": { \"name\": \"OldQuery\" },\n      \"types\": []\n    }\n  }\n}\n".to_vec()),
         _ => None,
     };
-    let pre = if sink_full { None } else { pre };
+    // `is-dir`: --output names an existing directory. Nothing can be written there: a run that
+    // reports success is judged as a success (and fails the "JSON at --output" check), a run that
+    // reports failure is accepted.
+    let sink_dir = plan["sink"] == "is-dir" && !plan["output"].is_null() && !sink_full;
+    if sink_dir {
+        std::fs::create_dir_all(&out_path).unwrap();
+    }
+    let pre = if sink_full || sink_dir { None } else { pre };
     // `symlink`: the --output path is a symbolic link to a file holding old text; whatever the
     // tool does, reading through the path afterwards must give the JSON (success) or the old text
-    let via_symlink = plan["output"] == "symlink" && !sink_full;
+    let via_symlink = plan["output"] == "symlink" && !sink_full && !sink_dir;
     let pre = if via_symlink { Some(OLD_TEXT.to_vec()) } else { pre };
     if let Some(p) = &pre {
         if via_symlink {
@@ -490,7 +497,7 @@ fn execute(plan: &Value, w: &World, cfg: &Cfg, slot: usize) -> Outcome {
         }
         // replies a client may accept or reject: judged as a success when the tool reports one,
         // as a failure when it reports one
-        let success_expected = plan::success_expected(&built.meaning) && !sink_full && (exit_ok || !built.either_ok);
+        let success_expected = plan::success_expected(&built.meaning) && !sink_full && (exit_ok || !(built.either_ok || sink_dir));
         if sink_full && plan::success_expected(&built.meaning) && exit_ok {
             push("write-failure-not-reported", "the output target accepts no bytes (/dev/full) but the exit status is 0: the JSON cannot have been written".into());
         }
@@ -725,6 +732,12 @@ fn absorb(a: &mut Agg, sub: u64, p: &Value, o: &Outcome) {
         bump(&mut a.fault_kinds, "fired:refused-header-text");
     } else if o.meaning_success {
         a.success_runs += 1;
+        if p["sink"] == "is-dir" && !p["output"].is_null() {
+            bump(&mut a.fault_kinds, "fired:output-path-is-a-directory(good reply)");
+        }
+        if p["script"]["also_cl"].is_i64() && p["script"]["framing"] == "chunked" {
+            bump(&mut a.fault_kinds, "fired:chunked-reply-with-content-length(good reply, either outcome accepted)");
+        }
     } else {
         a.failure_runs += 1;
         let fam = o.class.split('/').next().unwrap_or("").to_string();
